@@ -1,8 +1,10 @@
 """C07 — an HTTPS request is sent only over a connection verified as configured.
 
 case = {"cert_reqs": default|REQUIRED|OPTIONAL|NONE, "assert_hostname": unset|false|<name>, "fingerprint": unset|right|wrong|badlen,
-        "server_hostname": None|<name>, "context": none|default|nocheck, "issuer": trusted|untrusted, "san": [names],
+        "server_hostname": None|<name>, "context": none|default|nocheck, "trust": file|dir|data|none (how the CA is configured),
+        "issuer": trusted (the configured CA) | system (a CA of the system store) | untrusted, "san": [names],
         "host": requested host (resolved to the loopback server whatever it is)}
+The system store is a file of the harness's own (SSL_CERT_FILE / SSL_CERT_DIR point at it) holding a third CA.
 A real TLS server (Python's ssl, certificates made with trustme) listens on 127.0.0.1; a real HTTPSConnectionPool makes one
 request.  Observation: did request bytes reach the server, how the call ended, was InsecureRequestWarning raised, what the
 pooled connection says about is_verified."""
@@ -25,7 +27,8 @@ TRUSTED_BASE = [
     "OpenSSL's chain validation and host-name check, and urllib3's match_hostname (C08), enter the model as three booleans computed by the harness from the certificate and the names (exact, one-label wildcard and IP comparison)",
     "stdlib ssl backend, direct connections; the tunnel path calls the same function (not exercised with real TLS-in-TLS)",
 ]
-ASSUMPTIONS = ["no client certificates", "ca_certs is the test CA"]
+ASSUMPTIONS = ["no client certificates", "the system trust store is the one SSL_CERT_FILE / SSL_CERT_DIR name (OpenSSL's rule)",
+               "a caller's ssl_context carries the configured CA when one is configured and no anchor otherwise"]
 EXHAUSTIVE = {"quick": False, "thorough": False}
 CASE_TIMEOUT = 60
 IMPL_SERIAL = False
@@ -39,17 +42,67 @@ def pki():
         return _PKI
     import trustme
     d = tempfile.mkdtemp(prefix="c07pki")
-    good, bad = trustme.CA(), trustme.CA()
+    good, bad, system = trustme.CA(), trustme.CA(), trustme.CA()
     good.cert_pem.write_to_path(os.path.join(d, "ca.pem"))
-    _PKI.update({"dir": d, "good": good, "bad": bad, "ca_file": os.path.join(d, "ca.pem"), "certs": {}})
+    # the configured CA as a hashed directory (what c_rehash makes) and as data
+    cadir = os.path.join(d, "cadir")
+    os.mkdir(cadir)
+    good.cert_pem.write_to_path(os.path.join(cadir, subject_hash(good.cert_pem.bytes()) + ".0"))
+    # the "system store": OpenSSL's default verify paths follow these two variables
+    sysfile = os.path.join(d, "system.pem")
+    system.cert_pem.write_to_path(sysfile)
+    sysdir = os.path.join(d, "systemdir")
+    os.mkdir(sysdir)
+    os.environ["SSL_CERT_FILE"] = sysfile
+    os.environ["SSL_CERT_DIR"] = sysdir
+    _PKI.update({"dir": d, "good": good, "bad": bad, "system": system, "ca_file": os.path.join(d, "ca.pem"), "ca_dir": cadir,
+                 "ca_data": good.cert_pem.bytes().decode(), "certs": {}})
     return _PKI
+
+
+def _tlv(tag, body):
+    n = len(body)
+    if n < 128:
+        ln = bytes([n])
+    else:
+        b = n.to_bytes((n.bit_length() + 7) // 8, "big")
+        ln = bytes([0x80 | len(b)]) + b
+    return bytes([tag]) + ln + body
+
+
+def _oid(dotted):
+    parts = [int(x) for x in dotted.split(".")]
+    out = bytes([parts[0] * 40 + parts[1]])
+    for p in parts[2:]:
+        chunk = [p & 0x7f]
+        p >>= 7
+        while p:
+            chunk.append(0x80 | (p & 0x7f))
+            p >>= 7
+        out += bytes(reversed(chunk))
+    return _tlv(6, out)
+
+
+def subject_hash(pem):
+    """OpenSSL's X509_NAME_hash of the subject (the file name a CA directory wants): SHA-1 of the canonical name"""
+    import re
+    from cryptography import x509
+    cert = x509.load_pem_x509_certificate(pem)
+    enc = b""
+    for rdn in cert.subject.rdns:
+        inner = b""
+        for a in rdn:
+            v = re.sub(r"\s+", " ", a.value.strip()).lower()
+            inner += _tlv(0x30, _oid(a.oid.dotted_string) + _tlv(0x0c, v.encode()))
+        enc += _tlv(0x31, inner)
+    return "%08x" % int.from_bytes(hashlib.sha1(enc).digest()[:4], "little")
 
 
 def server_cert(issuer, san):
     p = pki()
     key = (issuer, tuple(san))
     if key not in p["certs"]:
-        ca = p["good"] if issuer == "trusted" else p["bad"]
+        ca = {"trusted": p["good"], "system": p["system"]}.get(issuer, p["bad"])
         p["certs"][key] = ca.issue_cert(*san)
     return p["certs"][key]
 
@@ -96,6 +149,8 @@ def effective_names(case):
 CR = {"default": 0, "REQUIRED": 1, "OPTIONAL": 2, "NONE": 3}
 FP = {"unset": 0, "right": 1, "wrong": 2, "badlen": 3}
 CTX = {"none": 0, "default": 1, "nocheck": 2}
+TRUST = {"file": 0, "dir": 1, "data": 2, "none": 3}
+ISSUER = {"trusted": 0, "system": 1, "untrusted": 2}
 
 
 def encode(case):
@@ -104,7 +159,7 @@ def encode(case):
     ah = case["assert_hostname"]
     name_for_match = ah if ah not in ("unset", "false") else sh
     return [CR[case["cert_reqs"]], 0 if ah == "unset" else (1 if ah == "false" else 2), FP[case["fingerprint"]], CTX[case["context"]],
-            B(case["issuer"] == "trusted"), B(san_matches(case["san"], sh)), B(san_matches(case["san"], name_for_match))]
+            TRUST[case["trust"]], ISSUER[case["issuer"]], B(san_matches(case["san"], sh)), B(san_matches(case["san"], name_for_match))]
 
 
 def describe(case):
@@ -184,7 +239,19 @@ def impl(case):
     der_bytes = ssl.PEM_cert_to_DER_cert(der.decode())
     right = hl.sha256(der_bytes).hexdigest()
     fp = {"unset": None, "right": right, "wrong": "00" * 32, "badlen": "abcd"}[case["fingerprint"]]
-    kw = {"ca_certs": p["ca_file"], "retries": False, "timeout": 5}
+    kw = {"retries": False, "timeout": 5}
+    if case["trust"] == "file":
+        kw["ca_certs"] = p["ca_file"]
+    elif case["trust"] == "dir":
+        kw["ca_cert_dir"] = p["ca_dir"]
+    elif case["trust"] == "data":
+        kw["ca_cert_data"] = p["ca_data"]
+
+    def caller_context():
+        c = ssl.SSLContext(ssl.PROTOCOL_TLS_CLIENT)        # check_hostname on, CERT_REQUIRED, no anchors
+        if case["trust"] != "none":
+            c.load_verify_locations(cafile=p["ca_file"])
+        return c
     if case["cert_reqs"] != "default":
         kw["cert_reqs"] = "CERT_" + case["cert_reqs"]
     if case["assert_hostname"] == "false":
@@ -196,9 +263,9 @@ def impl(case):
     if case["server_hostname"] is not None:
         kw["server_hostname"] = case["server_hostname"]
     if case["context"] == "default":
-        kw["ssl_context"] = ssl.create_default_context(cafile=p["ca_file"])
+        kw["ssl_context"] = caller_context()
     elif case["context"] == "nocheck":
-        c2 = ssl.create_default_context(cafile=p["ca_file"])
+        c2 = caller_context()
         c2.check_hostname = False
         kw["ssl_context"] = c2
     problems = []
@@ -258,7 +325,11 @@ def oracle(case, obs):
     verified = bool(verified[0]) if verified else False
     sh = (case["server_hostname"] if case["server_hostname"] is not None else case["host"]).rstrip(".")
     ah = case["assert_hostname"]
-    chain_ok = case["issuer"] == "trusted"
+    # the anchors the settings name: the configured CA, or - none configured, context left to urllib3 - the system store
+    if case["trust"] != "none":
+        chain_ok = case["issuer"] == "trusted"
+    else:
+        chain_ok = case["issuer"] == "system" and case["context"] == "none"
     validating = case["cert_reqs"] != "NONE"
     pinned = case["fingerprint"] != "unset"
     if sent:
@@ -267,7 +338,8 @@ def oracle(case, obs):
                 return "the request was sent although the pinned fingerprint does not match"
         elif validating:
             if not chain_ok:
-                return "the request was sent to a server whose certificate chain does not validate"
+                return "the request was sent to a server whose certificate was issued by %s, with the CA given as %s" % (
+                    {"system": "a CA of the system store only", "untrusted": "an unknown CA", "trusted": "the test CA"}[case["issuer"]], case["trust"])
             if ah != "false":
                 name = ah if ah != "unset" else sh
                 if not san_matches(case["san"], name):
@@ -294,9 +366,9 @@ def nontrivial(case, obs):
 
 
 def histogram(cases, obss):
-    h = {"cert_reqs": {}, "fingerprint": {}, "context": {}, "issuer": {}, "sent": {}, "outcome": {}}
+    h = {"cert_reqs": {}, "fingerprint": {}, "context": {}, "issuer": {}, "trust": {}, "sent": {}, "outcome": {}}
     for c, o in zip(cases, obss):
-        for k in ("cert_reqs", "fingerprint", "context", "issuer"):
+        for k in ("cert_reqs", "fingerprint", "context", "issuer", "trust"):
             h[k][c[k]] = h[k].get(c[k], 0) + 1
         if o:
             h["sent"][str(bool(o[0]))] = h["sent"].get(str(bool(o[0])), 0) + 1
@@ -315,7 +387,8 @@ def one_case(rng):
             "fingerprint": rng.choice(["unset", "unset", "unset", "right", "wrong", "badlen"]),
             "server_hostname": rng.choice([None, None, "localhost", "other.example"]),
             "context": rng.choice(["none", "none", "default", "nocheck"]),
-            "issuer": rng.choice(["trusted", "trusted", "untrusted"]), "san": rng.choice(SANS), "host": host}
+            "trust": rng.choice(["file", "file", "dir", "data", "none"]),
+            "issuer": rng.choice(["trusted", "trusted", "untrusted", "system"]), "san": rng.choice(SANS), "host": host}
 
 
 def cases(rng, tier):
@@ -327,9 +400,16 @@ def cases(rng, tier):
                     for issuer in ("trusted", "untrusted"):
                         for san in (["localhost"], ["other.example"]):
                             out.append({"cert_reqs": cr, "assert_hostname": ah, "fingerprint": fp, "server_hostname": None, "context": ctx, "issuer": issuer,
-                                        "san": san, "host": "localhost"})
+                                        "trust": "file", "san": san, "host": "localhost"})
     if tier == "quick":
         out = [c for i, c in enumerate(out) if i % 2 == 0]
+    for trust in ("file", "dir", "data", "none"):
+        for issuer in ("trusted", "system", "untrusted"):
+            for ctx in ("none", "default", "nocheck"):
+                for cr in ("default", "REQUIRED", "OPTIONAL", "NONE"):
+                    for ah in ("unset", "false"):
+                        out.append({"cert_reqs": cr, "assert_hostname": ah, "fingerprint": "unset", "server_hostname": None, "context": ctx,
+                                    "issuer": issuer, "trust": trust, "san": ["localhost"], "host": "localhost"})
     for _ in range(500 if tier == "quick" else 6000):
         out.append(one_case(rng))
     return out
